@@ -19,7 +19,7 @@ ATOMS = [
     "A()", "B()", "C()", "D()", "M()", "Outer.Inner()", "Outer.Inner.Deep()",
     "A", "C", "int", "type", "NoneType", "Outer.Inner",
     "func", "lam", "len", "A().meth", "A.smeth", "A.cmeth", "[].append", "Handler()", "partial(func, 1)",
-    "make_gen()",
+    "make_gen()", "raw_cmeth", "lazy_prop", "GetOnly()", "partialmethod(func, 1)", "Movie",
     "MyList([1])", "MyDict(a=1)", "MySet({1})", "MyTuple((1,))", "NT(1, 'a')", "frozenset([1])",
 ]
 
@@ -39,6 +39,10 @@ SMALL_CONTAINERS = [
     # aliasing: one container object reachable at several places of the value
     "[[1]] * 3", "dict.fromkeys(['a', 'b'], [1])", "(lambda r: [r, r])([1, 2])", "(lambda d: {'x': d, 'y': d})({'k': 1})",
     "(lambda r: (r, [r]))(['s'])", "(lambda d: [d, {'z': d}])({'k': 's'})", "(lambda r: defaultdict(list, {'p': r, 'q': r}))([A()])",
+    # aliasing next to an element of another type: the second occurrence sits in a different container with a sibling of another type
+    "(lambda r: (r, [r, 3]))([1])", "(lambda d: (d, [d, 's']))({'a': 1})", "(lambda r: [[r], [r, None]])([1])", "(lambda d: {1: d, 2: [d, 1.5]})({'k': 1})",
+    "(lambda r: (r, {r[0], 's'}))((1,))", "(lambda d: [d, defaultdict(int, {'p': d, 'q': 1})])({'k': 1})", "(lambda r: {'x': r, 'y': {1: r, 2: A()}})([1])",
+    "(lambda r: ([r], [r], [r, 's']))([])",
     # classes of user modules named like builtins
     "TimeoutError()", "[TimeoutError(), Warning()]", "{'a': KeyError_()}", "Warning",
     # str-subclass keys, falsy class objects
